@@ -30,7 +30,9 @@ static Outcome runInterp(const KV& c)
     const int threads = (int)c.getI("threads");
     const bool includeKnown = c.getI("include_known", 0) != 0;
     LevelPair LP;
-    LP.build(p, threads, (int)c.getI("coarse_split_mode", 0), (int)c.getI("coarse_circles", 0));
+    LP.build(p, threads, (int)c.getI("coarse_split_mode", 0), (int)c.getI("coarse_circles", 0), (int)c.getI("level_depth", 0));
+    if (c.getI("level_depth", 0) > 0)
+        o.cls("deeper_level_pair");
     const PolarGrid& fg = LP.fine->grid();
     const PolarGrid& cg = LP.coarse->grid();
     const int nf = fg.numberOfNodes(), nc = cg.numberOfNodes(), nr = fg.nr(), nt = fg.ntheta(), nC = fg.numberSmootherCircles();
@@ -446,6 +448,7 @@ static KV genCase()
         c.putI("threads", rpick({1, 2, 5, 16}));
         c.putI("coarse_split_mode", rint(0, 1));
         c.putI("coarse_circles", rint(0, (p.nr() + 1) / 2));
+        c.putI("level_depth", rweighted({3, 1, 1}));
         c.putI("x_kind", rweighted({4, 3, 1, 1, 1, 1}));
         c.putU("x_seed", rseed());
         c.putU("poly_seed", rseed());
